@@ -2,7 +2,7 @@
 # development aid: tools/evalseeds.sh <tag> <seed-name>...   (runs each seed against its own property's check, records, prints one line each)
 tag=$1; shift
 mkdir -p /root/runlogs
-for s in "$@"; do echo "$s ${s%%-*}"; done | xargs -P 6 -L1 sh -c 'tools/seedrun2.py seeded/$0 $1 --record > /root/runlogs/'$tag'-$0.json 2>&1'
+for s in "$@"; do echo "$s ${s%%-*}"; done | xargs -P ${EVAL_P:-6} -L1 sh -c 'tools/seedrun2.py seeded/$0 $1 --record > /root/runlogs/'$tag'-$0.json 2>&1'
 for s in "$@"; do /venv/bin/python - /root/runlogs/$tag-$s.json <<'PY'
 import json,sys
 try:
